@@ -291,8 +291,6 @@ def signature(case, verdict, failed):
     tags = set(verdict.get("tags", []))
     fs = _failing_stage(case)
     if failed == ["spec"] and agree:
-        if fs is not None and fs["op"] == "swap" and fs["k"] >= 1 and fs["out"]["err"] == "ERR:AssertionError":
-            return "swap:depth>0:empty-fiber:AssertionError"
         if fs is not None and fs["op"] == "unflatten" and fs["out"]["err"] == "ERR:TypeError" \
                 and "undeclaredEmptyRank" in tags:
             return "unflatten:empty-rank:undeclared-shape:TypeError"
@@ -303,11 +301,6 @@ def signature(case, verdict, failed):
             e = fs["out"]["err"] if fs is not None else "wrong-default"
             if (fs is None and case["dflt"] != 0) or e == "ERR:AssertionError":
                 return "flatten:levels>=3:attrs-from-empty-last-child:" + e
-        if fs is not None and fs["op"] == "merge" and fs["out"]["err"] == "ERR:TypeError" \
-                and not ({"r0", "r1"} & tags) and "actRangeClash" not in tags:
-            return "merge:fibers-of-fibers:3-way-union:TypeError"
-        if fs is None and case["ops"][0]["op"] == "merge" and "r0" not in tags:
-            return "merge:fibers:absent-defaults-into-merge_fn"
     st = fs["op"] + ":" + fs["out"]["err"] if fs is not None else "noerr"
     return f"{ops}:{st}:{'agree' if agree else 'DISAGREE'}:{'/'.join(sorted(failed))}"
 
